@@ -24,7 +24,7 @@ RULE = ("updates of 1..4 rectangles with structured random bodies in every encod
 def run(ctx):
     r = ctx.rng
     oldlim = limit_memory(8 << 30)
-    nsess = ctx.n(60, 900)
+    nsess = ctx.n(110, 1200)
     lines, meta = [], []
     for si in range(nsess):
         pf = r.choice(ACCEPTED_PF)
